@@ -185,7 +185,7 @@ Proof.
       repeat match type of HW' with _ && _ = true =>
         let H := fresh "W" in apply andb_true_iff in HW'; destruct HW' as [HW' H] end.
       unfold between in *. lia. }
-    apply (monthly_iter_correct2 r rl HN HW Hfr).
+    apply (monthly_iter_correct2 r rl HN HW Hfr 1 9999); [| | |apply (start_year_range_m r HW)|intros j _; unfold okp_m; lia].
     + intros y m Hy Hm. apply (rebuild_nth_succeeds rl y m Hy Hm Hwk Nfr TN TE PK).
     + intros y m ii y' m' Hy Hm Ar Hy' Hm' Hne.
       destruct (Z.eq_dec y' y) as [->|Hney].
